@@ -443,6 +443,7 @@ fn rec(
                     preempt: None,
                     stall: 0,
                 },
+                pre: 0,
             };
             // an operation the model says blocks forever is not enabled
             let ex = crate::model::explore(&p, cfg.model_cap);
